@@ -7,7 +7,7 @@
 From Coq Require Import Reals ZArith List Permutation.
 From PV Require Import Num NumR Model_mindex Proofs_mindex Proofs_mindex_mass
   Proofs_mindex_single Proofs_mindex_single_thm Proofs_mindex_batched Proofs_mindex_hist Inst_mindex
-  Inst_mindex_random Inst_mindex_index Proofs_mindex_gen Proofs_mindex_frame.
+  Inst_mindex_random Inst_mindex_index Proofs_mindex_gen Proofs_mindex_frame Model_blocks Proofs_blocks.
 From PV.gen Require Import Gen_mindex.
 Import ListNotations.
 Open Scope R_scope.
@@ -398,3 +398,35 @@ Theorem C14_dropped_symmetry_dependent :
     @pair_angle NumR Dropped (@symmetry_operations NumR Orthorhombic) q q = 0 /\
     0 < @pair_angle NumR Dropped (@symmetry_operations NumR Orthorhombic) (hmul u q) q.
 Proof. exact dropped_symmetry_dependent. Qed.
+
+(* ---- blocked evaluation of the pair rows: any number of grains, any block size (seeded change C14f) ----
+   `geometry.misorientation_angles` is row-wise (one output per grain pair).  Evaluating the rows in consecutive blocks of
+   ANY positive size b, the shorter tail block included, and concatenating gives the angles of the whole stack ... *)
+Theorem C14_pair_rows_blocked_any_size : forall v s (qs : list Q4) (b : nat), (0 < b)%nat ->
+  blocked b (map (fun pq => @pair_angle NumR v (@symmetry_operations NumR s) (fst pq) (snd pq))) (pairs qs) = @angles NumR v s qs.
+Proof. exact (fun v s qs b Hb => blocked_rowwise b _ (pairs qs) Hb). Qed.
+
+(* ... hence the index of a blocked implementation is the index, for every block size *)
+Theorem C14_mindex_blocked_any_size : forall s (qs : list Q4) v (b : nat), (0 < b)%nat ->
+  @mindex_of_angles NumR s (blocked b (map (fun pq => @pair_angle NumR v (@symmetry_operations NumR s) (fst pq) (snd pq))) (pairs qs)) =
+  @mindex_of_angles NumR s (@angles NumR v s qs).
+Proof. intros s qs v b Hb. now rewrite (blocked_rowwise b _ (pairs qs) Hb). Qed.
+
+(* ... whereas the floor-division variant (`for k in range(n_rows // b)`) evaluates only the first b * (n_rows / b) rows: it
+   loses rows exactly when the number of pair rows is not a multiple of the block size, and is exact otherwise *)
+Theorem C14_pair_rows_floor_blocks_lose_the_tail : forall v s (qs : list Q4) (b : nat), (0 < b)%nat ->
+  (length (pairs qs) mod b <> 0)%nat ->
+  (length (blocked_floor b (map (fun pq => @pair_angle NumR v (@symmetry_operations NumR s) (fst pq) (snd pq))) (pairs qs)) <
+   length (@angles NumR v s qs))%nat.
+Proof. exact (fun v s qs b Hb Hm => blocked_floor_loses_rows b _ (pairs qs) Hb Hm). Qed.
+
+Theorem C14_pair_rows_floor_blocks_prefix : forall v s (qs : list Q4) (b : nat), (0 < b)%nat ->
+  blocked_floor b (map (fun pq => @pair_angle NumR v (@symmetry_operations NumR s) (fst pq) (snd pq))) (pairs qs) =
+  firstn (b * (length (pairs qs) / b)) (@angles NumR v s qs).
+Proof. intros v s qs b Hb. rewrite (blocked_floor_rowwise b _ (pairs qs) Hb). unfold angles. now rewrite firstn_map. Qed.
+
+Local Open Scope nat_scope.
+Example C14_blocked_nonvacuous :
+  blocked 2 (map S) [1; 2; 3] = [2; 3; 4] /\ blocked_floor 2 (map S) [1; 2; 3] = [2; 3] /\
+  length (@pairs nat [1; 2; 3]) mod 2 <> 0.
+Proof. repeat split; discriminate. Qed.
